@@ -49,6 +49,8 @@ type GOp struct {
 	Cancel bool `json:"cancel,omitempty"` // cancel the caller's context after Get returned
 	TTL    int  `json:"ttl,omitempty"`    // caller TTL in seconds (0 = no TTL cell)
 	Reuse  bool `json:"reuse,omitempty"`  // reuse the thread's single key buffer (bench/failover.go pattern)
+	TTL0   bool `json:"ttl0,omitempty"`   // caller context carries a TTL cell holding 0
+	CBef   bool `json:"cbef,omitempty"`   // cancel the caller's context before Get
 }
 
 // FCfg is one Failover scenario.
@@ -66,6 +68,9 @@ type FCfg struct {
 	Faults  bool     `json:"faults,omitempty"`
 	Callout bool     `json:"callout,omitempty"` // scheduling points in stats/log call-outs
 	Follow  bool     `json:"follow,omitempty"`  // C04 follow-up phase
+	FTSec   int      `json:"ftsec,omitempty"`   // custom FailedUpdateTTL in seconds
+	Rand    float64  `json:"rand,omitempty"`    // fixed rand.Float64 answer + 0 (0 = 0.5 default); see randOf
+	Seq     []string `json:"seq,omitempty"`     // sequential scenario (C05b / C03 sequences)
 	Tags    []string `json:"tags,omitempty"`
 }
 
@@ -164,6 +169,13 @@ type fh struct {
 	monitor  int64 // scheduler resource for harness call-outs
 	stats    map[string]float64
 	nfault   int
+	ttlCalls []ttlCall         // WithTTL calls the builder performs (C06)
+	ctxs     []context.Context // caller contexts of the Gets, in get-end order
+}
+
+type ttlCall struct {
+	TTL time.Duration
+	Upd bool
 }
 
 var keyNames = []string{"alpha-key-000", "bravo-key-111", "gamma-key-222"}
@@ -533,6 +545,12 @@ func newFH(cfg FCfg) *fh {
 	ft := time.Duration(0)
 	if cfg.FTNeg {
 		ft = -1
+	} else if cfg.FTSec != 0 {
+		ft = time.Duration(cfg.FTSec) * time.Second
+	}
+
+	if cfg.Rand != 0 {
+		vclock.SetRand(cfg.Rand - 1)
 	}
 
 	switch cfg.Front {
@@ -600,6 +618,10 @@ func (h *fh) builder(k int) func(ctx context.Context) (Tok, error) {
 		obs := ctxObs{Err: ctx.Err(), DoneNil: ctx.Done() == nil, Deadline: hasDL, Planted: ctx.Value(plantedKey{}), TTL: cache.TTL(ctx), Skip: cache.SkipRead(ctx)}
 		h.ev(FEv{Kind: "build-start", Key: k, N: n, Ctx: obs})
 
+		for _, c := range h.ttlCalls {
+			_ = cache.WithTTL(ctx, c.TTL, c.Upd)
+		}
+
 		// The build is in flight: let every other thread run here.
 		h.point(0xb0 + uint32(k))
 
@@ -638,8 +660,14 @@ func (h *fh) runGet(op GOp, buf []byte) {
 		ctx, cancel = context.WithCancel(ctx)
 	}
 
-	if op.TTL != 0 {
+	if op.TTL != 0 || op.TTL0 {
 		ctx = cache.WithTTL(ctx, time.Duration(op.TTL)*time.Second, false)
+	}
+
+	if op.CBef {
+		var c context.CancelFunc
+		ctx, c = context.WithCancel(ctx)
+		c()
 	}
 
 	if op.Skip {
@@ -661,6 +689,7 @@ func (h *fh) runGet(op GOp, buf []byte) {
 	}
 
 	h.ev(FEv{Kind: "get-end", Key: op.Key, Tok: t, Nil: isNil, Err: err, TTL: cache.TTL(ctx)})
+	h.ctxs = append(h.ctxs, ctx)
 
 	if op.Mut {
 		vsched.Yield()
